@@ -40,21 +40,55 @@ func FromReaders(readers ...io.Reader) (*Dialogue, error) {
 	return dialogue, nil
 }
 
+// syntaxErrorListener records the syntax errors reported by the lexer and the parser.
+type syntaxErrorListener struct {
+	*antlr.DefaultErrorListener
+	errs []error
+}
+
+// SyntaxError is called when the lexer or the parser encounters invalid input.
+func (l *syntaxErrorListener) SyntaxError(_ antlr.Recognizer, _ interface{}, line, column int, msg string, _ antlr.RecognitionException) {
+	l.errs = append(l.errs, fmt.Errorf("line %d:%d %s", line, column, msg))
+}
+
 // FromReader creates a dialogue tree by reading the content of reader.
-func FromReader(reader io.Reader) (*Dialogue, error) {
+// Content that is not a valid script results in an error.
+func FromReader(reader io.Reader) (dialogue *Dialogue, err error) {
 	scriptData, err := io.ReadAll(reader)
 	if err != nil {
 		return nil, fmt.Errorf("failed to read content: %w", err)
 	}
+
+	// the lexer and the listener panic on some invalid inputs (eg. indentation mixing tabs and spaces)
+	defer func() {
+		if r := recover(); r != nil {
+			dialogue, err = nil, fmt.Errorf("failed to parse dialogue: %v", r)
+		}
+	}()
+
 	input := antlr.NewInputStream(string(scriptData))
 	var (
-		lexer    = parser.NewYarnSpinnerLexer(input)
-		stream   = antlr.NewCommonTokenStream(lexer, antlr.LexerDefaultTokenChannel)
-		p        = parser.NewYarnSpinnerParser(stream)
-		listener = &parserListener{}
+		lexer         = parser.NewYarnSpinnerLexer(input)
+		stream        = antlr.NewCommonTokenStream(lexer, antlr.LexerDefaultTokenChannel)
+		p             = parser.NewYarnSpinnerParser(stream)
+		listener      = &parserListener{}
+		errorListener = &syntaxErrorListener{}
 	)
+	lexer.RemoveErrorListeners()
+	lexer.AddErrorListener(errorListener)
+	p.RemoveErrorListeners()
+	p.AddErrorListener(errorListener)
 
-	antlr.ParseTreeWalkerDefault.Walk(listener, p.Dialogue())
+	parseTree := p.Dialogue()
+	if len(errorListener.errs) != 0 {
+		return nil, fmt.Errorf("failed to parse dialogue: %w", errors.Join(errorListener.errs...))
+	}
+
+	antlr.ParseTreeWalkerDefault.Walk(listener, parseTree)
+
+	if listener.dialogue == nil || len(listener.dialogue.Nodes) == 0 {
+		return nil, errors.New("dialogue contains no node")
+	}
 
 	return listener.dialogue, nil
 }
